@@ -31,6 +31,8 @@ def pepsets(m):
 
 def property_violation(mode, m, groups):
     """C03 evaluated on the implementation's output."""
+    if len(groups) == 1 and len(groups[0]) == 1 and groups[0][0].startswith("<raised "):
+        return "grouping-" + groups[0][0].strip("<>").replace(" ", "-")
     ps = pepsets(m)
     flat = [p for g in groups for p in g]
     if sorted(flat) != sorted(ps) or any(not g for g in groups):
@@ -127,7 +129,10 @@ class GroupingSuite(Suite):
             yield {"mode": rng.choice(list(MODES)), "map": m}
 
     def impl(self, case):
-        return group(case["mode"], case["map"])
+        try:
+            return group(case["mode"], case["map"])
+        except Exception as e:      # the grouping of a well-formed incidence structure never raises
+            return [["<raised " + gens.exn_name(e) + ">"]]
 
     def render_in(self, case):
         return cpair(cnat(MODES[case["mode"]]), render_pmap(case["map"]))
